@@ -152,6 +152,11 @@ func Run(tier string, seed int64, outDir string) *common.Meta {
 		emit("size-rangeValCopy", m, "", fmt.Sprintf("func rv%d(xs [][%d]byte) {\n\tfor _, v := range xs {\n\t\t_ = v\n\t}\n}\n\n", i, m), 1)
 		emit("size-rangeExprCopy", m, "", fmt.Sprintf("func re%d() {\n\tvar a [%d]byte\n\tfor _, v := range a {\n\t\t_ = v\n\t}\n}\n\n", i, m), 2)
 	}
+	// function-local types with the same name but different sizes: each must be measured by its own size
+	for i, m := range []int{16, 528, 40, 4096, 129} {
+		emit("size-rangeValCopy", m, "", fmt.Sprintf("func lt%d() {\n\ttype rec struct{ a [%d]byte }\n\tvar xs []rec\n\tfor _, v := range xs {\n\t\t_ = v\n\t}\n}\n\n", i, m), 3)
+		emit("size-rangeExprCopy", 8*m, "", fmt.Sprintf("func le%d() {\n\ttype rec struct{ a [%d]byte }\n\tvar arr [8]rec\n\tfor _, v := range arr {\n\t\t_ = v\n\t}\n}\n\n", i, m), 3)
+	}
 	for n := 0; n <= 8; n++ {
 		res := make([]string, n)
 		zeros := make([]string, n)
